@@ -650,6 +650,14 @@ func verifC14RoundTrip(args []vsx) vsx {
 	if args[0].boolean() {
 		return vL(vS("bad-case"))
 	}
+	if len(args) == 6 { // with the request and the response around the body: zz_verif_c14_http_test.go
+		spec, ok1 := verifC14ParseReq(args[4])
+		rs, ok2 := verifC14ParseResp(args[5])
+		if !ok1 || !ok2 {
+			return vL(vS("bad-case"))
+		}
+		return verifC14Both(func(accumulate bool) vsx { return verifC14RoundTripSpecRun(args, spec, rs, accumulate) })
+	}
 	return verifC14Both(func(accumulate bool) vsx { return verifC14RoundTripRun(args, accumulate) })
 }
 
@@ -686,6 +694,22 @@ func verifC14RoundTripRun(args []vsx, accumulate bool) vsx {
 // (headers table ops) -> as c14.writer, the handler writing through the ResponseWriter that
 // TracingHandler passes to it (headers set before the first Write, a trailer after the last).
 func verifC14Handler(args []vsx) vsx {
+	if len(args) == 4 { // with the request the handler is given: zz_verif_c14_http_test.go
+		spec, ok := verifC14ParseReq(args[3])
+		if !ok {
+			return vL(vS("bad-case"))
+		}
+		if spec.mode == 2 {
+			return vL(vS("bad-case"))
+		}
+		if spec.mode == 1 {
+			if verifC14Tripped {
+				return vErr(verifC14AllocErr)
+			}
+			return verifC14HandlerLiveRun(args, spec)
+		}
+		return verifC14Both(func(accumulate bool) vsx { return verifC14HandlerReqRun(args, spec, accumulate) })
+	}
 	return verifC14Both(func(accumulate bool) vsx { return verifC14HandlerRun(args, accumulate) })
 }
 
